@@ -45,6 +45,15 @@ def run(chk):
     import coxeter
 
     rng = chk.rng
+    # the batch contract of is_inside for every 3-D class (base shapes of the harness, points around the shape)
+    from .. import shapes as Z_
+    for cls_ in ("Sphere", "Ellipsoid", "Polyhedron", "ConvexPolyhedron", "ConvexSpheropolyhedron"):
+        sh_, _ = Z_.make(cls_)
+        c_ = np.asarray(sh_.vertices, float).mean(0) if hasattr(sh_, "vertices") else np.asarray(sh_.centroid, float)
+        B_ = c_ + np.array([[0.1, 0.2, 0.05], [0.6, -0.3, 0.4], [3.0, 3.0, 3.0], [-0.2, 0.1, 0.3], [1.2, 0.1, -0.4], [-5.0, 0.0, 0.0]])
+        for prob_ in C.batch_contract(sh_.is_inside, B_, "b"):
+            chk.violation("batch-contract", dict(cls=cls_, what=prob_)); break
+        chk.count("batch-contract")
     quick = chk.tier == "quick"
     nconv, nmesh, ncurv, nsph = (25, 25, 30, 12) if quick else (300, 300, 400, 120)
     npts = 60 if quick else 200
